@@ -248,6 +248,7 @@ Proof.
   apply bind_ok in H as (u5 & _ & H).
   apply bind_ok in H as (u6 & _ & H). apply bind_ok in H as (u7 & _ & H).
   apply bind_ok in H as (u8 & _ & H). apply bind_ok in H as (u9 & _ & H). apply bind_ok in H as (u10 & _ & H).
+  apply bind_ok in H as (u10b & _ & H).
   apply bind_ok in H as (ba1 & Hba1 & H). apply bind_ok in H as (bl1 & Hbl1 & H).
   cbv zeta in H.
   set (wA := put_hbank (put_hbank w ab (set_hb_b ba1 ha)) lb (set_hb_b bl1 hl)) in H.
